@@ -23,6 +23,8 @@ import (
 	"regexp"
 	"sort"
 	"strings"
+	"sync"
+	"sync/atomic"
 	"syscall"
 	"time"
 
@@ -967,6 +969,58 @@ func runInstance(c *run.Ctx, bin string, cfg instCfg, flt *filter, st *stats, ro
 			return false
 		}
 	}
+	// concurrent phase: legitimate clients and intruders at the same time on one cheap route. The decision for one
+	// request must not depend on what other requests carry at that moment.
+	if flt == nil && (cfg.Name == "A" || cfg.Name == "B") {
+		var tgt *target
+		for i := range targets {
+			if targets[i].method == "GET" && targets[i].ref != "" && !hung[targets[i].r.Template+"|GET"] {
+				tgt = targets[i]
+				if strings.Contains(targets[i].r.Template, "ready") || strings.Contains(targets[i].r.Template, "echo") || strings.Contains(targets[i].r.Template, "buildinfo") {
+					break
+				}
+			}
+		}
+		if tgt != nil {
+			u := url(tgt, false)
+			right := []string{"Basic " + b64(cfg.Login+":"+cfg.Pass)}
+			var stop atomic.Bool
+			var wg sync.WaitGroup
+			var legit, intr, through atomic.Int64
+			var first atomic.Value
+			for g := 0; g < 3; g++ {
+				wg.Add(2)
+				go func() {
+					defer wg.Done()
+					for !stop.Load() {
+						in.send("GET", u, right, combos[0], "", "", nil, 5*time.Second)
+						legit.Add(1)
+					}
+				}()
+				go func(g int) {
+					defer wg.Done()
+					for k := 0; !stop.Load(); k++ {
+						hc := cls[(g+k)%len(cls)]
+						a := in.send("GET", u, hc.Values, combos[0], "", "", nil, 5*time.Second)
+						intr.Add(1)
+						if a.Status >= 200 && a.Status < 300 {
+							through.Add(1)
+							first.CompareAndSwap(nil, fmt.Sprintf("Authorization %s: %v answered %d %s", hc.Name, hc.Values, a.Status, short(a.Body, 80)))
+						}
+					}
+				}(g)
+			}
+			time.Sleep(time.Duration(c.Pick(1500, 6000)) * time.Millisecond)
+			stop.Store(true)
+			wg.Wait()
+			c.Floor("bad-credential requests sent while right-credential requests were in flight", 0, int(intr.Load()))
+			c.Event("concurrent_phase_legitimate_requests", int(legit.Load()))
+			if n := through.Load(); n > 0 {
+				c.Violation("route=*/method=GET/header=*/served-while-legitimate-requests-in-flight", fmt.Sprintf("%s/%s: %d of %d requests with bad credentials were served (2xx) while %d requests with the right credentials were in flight on %s; first: %v",
+					cfg.Mode, cfg.Name, n, intr.Load(), legit.Load(), tgt.r.Template, first.Load()), map[string]any{"mode": cfg.Mode, "cfg": cfg.Name, "route": tgt.r.Template})
+			}
+		}
+	}
 	in.quiesce()
 	if n := len(in.srv.Interactions(phaseStart)); n > 0 {
 		c.Event("queries_logged_during_unauth_phase", n)
@@ -1182,7 +1236,10 @@ const rule = "real binary (-tags verif) x {writer,reader} x {cfg A: awkward cred
 	"that do not register it may be refused by the router (404/405) but never served; the right credentials are never answered " +
 	"401 / auth-400 and are seen to reach the database on representative routes"
 
-func Main(c *run.Ctx) { runAll(c, nil) }
+func Main(c *run.Ctx) {
+	runAll(c, nil)
+	c.Floor("bad-credential requests sent while right-credential requests were in flight", 500, 0)
+}
 
 func runAll(c *run.Ctx, flt *filter) {
 	c.SetRule(rule)
